@@ -54,9 +54,9 @@ AlphabetSet ==
         {Op("tx", [BaseTx("vote", s) EXCEPT !.cfg = Cands[1], !.bad = d], "fresh") : s \in Addrs, d \in {"dupAddr", "badAddrLen"}} \cup
         {Op("tx", [BaseTx("checkin", s) EXCEPT !.key = k, !.bad = d], "fresh") : s \in Addrs, k \in CheckKeys, d \in {"badValKey", "badEncKey"}} \cup
         {Op("tx", [BaseTx(k, s) EXCEPT !.eon = e, !.to = <<r>>, !.bad = d], "fresh") :
-            k \in {"eval", "apol"}, s \in Addrs, r \in Addrs \ {s}, e \in Eons, d \in {"lenMismatch", "dupAddr", "badAddrLen"}} \cup
+            k \in {"eval", "apol"}, s \in Addrs, r \in Addrs, e \in Eons, d \in {"lenMismatch", "dupAddr", "badAddrLen"}} \cup
         {Op("tx", [BaseTx("acc", s) EXCEPT !.eon = e, !.to = <<r>>, !.bad = d], "fresh") :
-            s \in Addrs, r \in Addrs \ {s}, e \in Eons, d \in {"dupAddr", "badAddrLen"}} \cup
+            s \in Addrs, r \in Addrs, e \in Eons, d \in {"dupAddr", "badAddrLen"}} \cup
         {Op("tx", [BaseTx("commit", s) EXCEPT !.eon = e, !.gm = 1, !.bad = "badPoint"], "fresh") : s \in Addrs, e \in Eons}
      ELSE {}) \cup
     (IF "replay" \in Kinds THEN
